@@ -1,6 +1,10 @@
 //! Hex helpers shared by all case kinds ("-" is the empty string).
 #![allow(dead_code)]
 
+/// Number of panics seen by the process-wide hook (panics inside spawned tasks are swallowed by
+/// the runtime; the replayer reports them through this counter).
+pub static PANIC_COUNT: std::sync::atomic::AtomicUsize = std::sync::atomic::AtomicUsize::new(0);
+
 pub fn hex(b: &[u8]) -> String {
     if b.is_empty() {
         return "-".to_string();
